@@ -377,3 +377,9 @@ func sameMsgs(a, b []Msg) (bool, string) {
 	}
 	return true, ""
 }
+
+// EncodeFrame and DecodeFrames export the independent frame codec to the e2e world.
+func EncodeFrame(f Frame, key [4]byte) []byte { return f.encode(key) }
+
+// DecodeFrames decodes as many complete frames as b holds; the string is empty or says why decoding stopped.
+func DecodeFrames(b []byte) ([]Frame, string) { return decodeFrames(b) }
